@@ -8,15 +8,6 @@ Import ListNotations.
 (* ------------------------------------------------------------------------------------ *)
 (** * A boolean checker for the invariants (reflection, used on the concrete witnesses) *)
 
-Fixpoint nat_nodupb (l : list nat) : bool :=
-  match l with [] => true | a :: r => negb (nat_mem a r) && nat_nodupb r end.
-
-Lemma nat_nodupb_NoDup : forall l, nat_nodupb l = true -> NoDup l.
-Proof.
-  induction l as [|a l IH]; intros H; [constructor|]. cbn in H. apply andb_true_iff in H. destruct H as [H1 H2].
-  constructor; [|auto]. apply negb_true_iff in H1. apply nat_mem_false in H1. exact H1.
-Qed.
-
 Definition inv_b (d : db) : bool :=
   nat_nodupb (names d)
   && forallb (fun t => forallb (fun r => Nat.eqb (length r) (ncols t)) (t_rows t)) d
@@ -169,10 +160,13 @@ Definition w7_stmt : stmt := SUpdate 0 [(0, EAdd 0 10)] None.
 Theorem self_ref_update_witness : breaks_ri EvSelfRefPkUpdate [0] w7_db w7_stmt.
 Proof. apply breaks_ri_by_computation; vm_compute; reflexivity. Qed.
 
-(** 8. DROP TABLE has no guard *)
+(** 8. (repaired) DROP TABLE of a referenced table is refused and changes nothing *)
 Definition w8_db : db := [parent0 [[v 1; None]]; child1 ANoAction ANoAction None [[v 1; v 1]]].
-Theorem drop_witness : breaks_ri EvDropReferenced [0; 1] w8_db (SDropTable 0).
-Proof. apply breaks_ri_by_computation; vm_compute; reflexivity. Qed.
+Theorem drop_guard_example :
+  step_res [0; 1] w8_db (SDropTable 0) = RErr EConstraint /\ step_db [0; 1] w8_db (SDropTable 0) = w8_db
+  /\ known_class [0; 1] (SDropTable 0) w8_db = false
+  /\ step_res [0; 1] w8_db (SDropTable 1) = ROk 0.
+Proof. vm_compute. repeat split; reflexivity. Qed.
 
 (** 9. ALTER TABLE ADD FOREIGN KEY does not look at the rows *)
 Definition w9_db : db := [parent0 [[v 1; None]]; mkTable 1 [colK; colN] (Some [0]) [] [[v 1; v 42]]].
@@ -180,18 +174,22 @@ Theorem add_fk_witness : breaks_ri EvAddFkUnchecked [0; 1] w9_db (SAddFk 1 (mkFk
 Proof. apply breaks_ri_by_computation; vm_compute; reflexivity. Qed.
 
 (* ------------------------------------------------------------------------------------ *)
-(** * Non-standard foreign keys (the schema itself is the class) *)
+(** * Keys declared out of column order (repaired) and non-standard foreign keys (the schema itself is the class) *)
 
-(** 10. FOREIGN KEY (c2, c1) REFERENCES t0(c0, c1): INSERT collects the values in column order *)
+(** 10. (repaired) FOREIGN KEY (c2, c1) REFERENCES t0(c0, c1): INSERT now compares the values in
+    declaration order like UPDATE and DELETE do; such a key is a standard key, the step theorem applies *)
 Definition w10_db : db :=
   [mkTable 0 [colK; colK; colN] (Some [0; 1]) [] [[v 1; v 2; None]];
    mkTable 1 [colK; colN; colN] (Some [0]) [mkFk [2; 1] 0 [0; 1] ACascade ACascade] []].
-Theorem out_of_order_witness :
-  ri_b w10_db = true /\ schema_standard w10_db = false /\
-  step_res [0; 1] w10_db (SInsert 1 [[v 1; v 2; v 1]]) = RErr EConstraint      (* the valid row is refused *)
-  /\ step_res [0; 1] w10_db (SInsert 1 [[v 2; v 1; v 2]]) = ROk 1               (* the dangling one is taken *)
-  /\ ri_b (step_db [0; 1] w10_db (SInsert 1 [[v 2; v 1; v 2]])) = false.
-Proof. vm_compute. repeat split; reflexivity. Qed.
+Theorem out_of_order_example :
+  inv w10_db /\ RI w10_db
+  /\ known_class [0; 1] (SInsert 1 [[v 1; v 2; v 1]]) w10_db = false
+  /\ step_res [0; 1] w10_db (SInsert 1 [[v 1; v 2; v 1]]) = ROk 1            (* the valid row is taken *)
+  /\ step_res [0; 1] w10_db (SInsert 1 [[v 2; v 1; v 2]]) = RErr EConstraint.   (* the dangling one is refused *)
+Proof.
+  split; [apply inv_b_inv; vm_compute; reflexivity|]. split; [apply ri_exact_b_RI; vm_compute; reflexivity|].
+  vm_compute. repeat split; reflexivity.
+Qed.
 
 (** 11. FOREIGN KEY (c1) REFERENCES t0(c1) (not the primary key): DELETE compares with the primary key *)
 Definition w11_db : db :=
